@@ -311,6 +311,22 @@ func (c *Ctx) lockDiscipline(fs *State, op regOp, ctxObj, mapObj int, mk func(st
 			bad = fmt.Sprintf("the registry is written under a read lock at %s", a.Site)
 		}
 	}
+	// 1b. any other package-level object that some registry operation writes (e.g. the variable holding the
+	// registry pointer, a memo of the last lookup) is shared mutable state too: every access to it, by every
+	// operation, must be under the lock
+	for _, a := range fs.acc {
+		if regObjs[a.Obj] {
+			continue
+		}
+		if w := c.sharedWritten()[a.Obj]; w != "" {
+			nShared++
+			if a.Lock == 0 {
+				bad = fmt.Sprintf("a package-level object that %s is accessed without the lock at %s", w, a.Site)
+			} else if a.Write && a.Lock != -1 {
+				bad = fmt.Sprintf("a package-level object is written under a read lock at %s", a.Site)
+			}
+		}
+	}
 	// accesses through the map created by Clear (a fresh object stored into the registry) are writes to ctxObj, covered above
 	stress := func(what string) func(val func(*Term) uint64) *Violation {
 		return func(val func(*Term) uint64) *Violation {
@@ -350,4 +366,37 @@ func (c *Ctx) lockDiscipline(fs *State, op regOp, ctxObj, mapObj int, mk func(st
 		}
 		c.Prove(fs, "at-most-one-critical-section-or-layer3", B(acquires <= 1 || c19Layer3Covers(op.Op)), mk("the operation's shared accesses are split over several critical sections"))
 	}
+}
+
+// sharedWritten: pre-existing objects (outside the registry struct and its map) written by some registry
+// operation, found by running each operation once from a state in which it has something to do.
+func (c *Ctx) sharedWritten() map[int]string {
+	if c.w.sharedW != nil {
+		return c.w.sharedW
+	}
+	out := map[int]string{}
+	c.w.sharedW = out
+	e := c.e()
+	regObjs := c.registryObjects()
+	for _, t := range []struct {
+		pre string
+		op  regOp
+	}{{"minus:CRC16", regOp{Op: "Registry", Name: "CRC16"}}, {"init", regOp{Op: "Registry", Name: "CRC16"}}, {"init", regOp{Op: "Get", Name: "CRC16"}},
+		{"minus:CRC16", regOp{Op: "Get", Name: "CRC16"}}, {"init", regOp{Op: "Remove", Name: "CRC16"}}, {"init", regOp{Op: "Clear"}}} {
+		fn := c.w.fn("codec." + t.op.Op)
+		if fn == nil {
+			continue
+		}
+		s := c.regPrepare(t.pre)
+		args, _, _ := c.regArgs(s, t.op)
+		e.pushCall(s, fn, args, nil)
+		for _, fs := range e.Run(s) {
+			for _, a := range fs.acc {
+				if a.Write && !regObjs[a.Obj] && out[a.Obj] == "" {
+					out[a.Obj] = fmt.Sprintf("%s writes at %s", t.op.Op, a.Site)
+				}
+			}
+		}
+	}
+	return out
 }
